@@ -373,13 +373,14 @@ func runCase(c Case, x *h.Ctx) {
 // generator
 
 type genState struct {
-	nonce       [4]uint64
-	contracts   []common.Address
-	count       int
-	avoidEmpty  bool // the empty-tx crash is a listed finding: leave the shape out
-	avoidAdmin  bool // the 0xfe slicing crash is a listed finding: leave panicking inputs out
-	kvAnyNonce  bool // the key-value nonce finding is listed: predict nonces the way the code behaves
-	excluded    map[string]bool
+	nonce      [4]uint64
+	contracts  []common.Address
+	count      int
+	avoidEmpty bool // the empty-tx crash is a listed finding: leave the shape out
+	avoidAdmin bool // the 0xfe slicing crash is a listed finding: leave panicking inputs out
+	avoidLeak  bool // the gas-pool crash is a listed finding: keep the number of value-carrying calls per transaction small
+	kvAnyNonce bool // the key-value nonce finding is listed: predict nonces the way the code behaves
+	excluded   map[string]bool
 }
 
 func pick(t *rapid.T, label string, weights ...int) int {
@@ -472,10 +473,10 @@ func abiChangenode(txdata []byte) []byte {
 	return out
 }
 
-var fragKinds = []string{"sstore", "inc", "calldata", "log", "revert", "invalid", "stop", "ret", "loop", "burn", "callpre", "selfdestruct", "raw"}
+var fragKinds = []string{"sstore", "inc", "calldata", "log", "revert", "invalid", "stop", "ret", "loop", "burn", "callpre", "selfdestruct", "raw", "callvalue"}
 
 func genFrag(t *rapid.T, st *genState, inInit bool) Frag {
-	k := pick(t, "frag", 5, 4, 2, 4, 2, 2, 1, 1, 3, 1, 3, 1, 1)
+	k := pick(t, "frag", 5, 4, 2, 4, 2, 2, 1, 1, 3, 1, 3, 1, 1, 2)
 	f := Frag{Kind: fragKinds[k]}
 	switch f.Kind {
 	case "sstore":
@@ -506,6 +507,17 @@ func genFrag(t *rapid.T, st *genState, inInit bool) Frag {
 		}
 	case "raw":
 		f.W = rapid.SliceOfN(rapid.Byte(), 1, 6).Draw(t, "rawOps")
+	case "callvalue":
+		// A times CALL(gas B, address 0x99, value 1): the accounts of this chain hold no balance,
+		// so the transfer cannot be afforded and the call fails
+		f.A = rapid.SampledFrom([]int{1, 2, 3, 9, 10, 11, 30, 60}).Draw(t, "ncalls")
+		f.B = rapid.SampledFrom([]int{0, 0, 1, 200}).Draw(t, "callGas")
+		if st.avoidLeak && f.A > 2 {
+			// every failed value transfer hands the caller 2300 gas it never paid; once that exceeds
+			// the transaction's intrinsic gas the block gas pool overflows and execution panics
+			st.excluded[sigGasPool] = true
+			f.A = 1
+		}
 	}
 	if inInit && f.Kind == "burn" {
 		f.Kind = "inc"
@@ -790,6 +802,7 @@ func genCase(t *rapid.T) Case {
 	keepKnown := rapid.IntRange(0, 9).Draw(t, "keepKnownShapes") == 0
 	st.avoidEmpty = !keepKnown && h.IsKnownFor("C09", sigEmptyTx)
 	st.avoidAdmin = !keepKnown && h.IsKnownFor("C09", sigAdminSlice)
+	st.avoidLeak = !keepKnown && h.IsKnownFor("C09", sigGasPool)
 	st.kvAnyNonce = h.IsKnownFor("C09", sigKVNonce)
 	nb := rapid.IntRange(1, 3).Draw(t, "blocks")
 	for b := 0; b < nb; b++ {
@@ -800,7 +813,7 @@ func genCase(t *rapid.T) Case {
 		}
 		c.Blocks = append(c.Blocks, blk)
 	}
-	for _, sig := range []string{sigAdminSlice, sigEmptyTx} {
+	for _, sig := range []string{sigAdminSlice, sigEmptyTx, sigGasPool} {
 		if st.excluded[sig] {
 			c.Excluded = append(c.Excluded, sig)
 		}
